@@ -252,6 +252,9 @@ def content_between(doc: Node, from_: int, to: int) -> bool:
     from__ = doc.resolve(from_)
     dist = to - from_
     depth = from__.depth
+    if dist > 0 and from__.text_offset:
+        # starting inside a text node: the rest of that node is content
+        return True
     while (
         dist > 0
         and depth > 0
